@@ -76,6 +76,7 @@ struct Calls {
   uint64_t bytes_read = 0, bytes_written = 0;
   uint64_t short_reads = 0; // reads that returned fewer bytes than both asked and available
   uint64_t short_writes = 0;
+  uint64_t short_reads_page = 0; // urandom reads longer than a page cut at the page boundary (signal pending)
   uint64_t errors = 0; // calls that returned -1 by injection
   uint64_t natural_errors = 0; // calls that returned -1 for a modelled reason (ENOENT, EBADF ...)
   int last_errno = 0;
@@ -139,7 +140,8 @@ void set_urandom(int mode, uint64_t seed);
 uint8_t urandom_byte(int mode, uint64_t seed, uint64_t pos);
 uint64_t urandom_consumed();
 // Scripted device behaviour for successive reads (used by sim-rand so that two passes see the same
-// fault sequence): 0 = deliver everything asked, k>0 = deliver at most k bytes, -1 = EIO, -2 = EINTR.
+// fault sequence): 0 = deliver everything asked, k>0 = deliver at most k bytes, -1 = EIO, -2 = EINTR,
+// -3 = a signal is pending: at most one page (4096 bytes) is delivered, as Linux does.
 // When the script is exhausted every read is delivered in full.
 void set_urandom_script(const std::vector<int>& script);
 size_t urandom_script_used();
